@@ -176,14 +176,13 @@ theorem counterexample_optional_duplicate_outer :
     ¬ Agrees (Exec.run small { g := gOneNode } qOptionalDup) (Spec.denote small { g := gOneNode } qOptionalDup) := by
   decide
 
-/-- the property map of an anonymous relationship pattern is dropped by the planner:
-    `MATCH (a)-[{w: 5}]->(b)` matches a relationship without `w`. -/
+/-- formerly a counterexample (the planner dropped the property map of an anonymous relationship pattern),
+    repaired by fix 0a34a68: `MATCH (a)-[{w: 5}]->(b)` no longer matches a relationship without `w`. -/
 def qAnonRelProps : Query :=
   [.match_ false [⟨⟨some "a", [], []⟩, [(⟨none, [], .out, [("w", .lit (.int 5))]⟩, ⟨some "b", [], []⟩)]⟩],
    .return_ ⟨false, [⟨.plain (.var "a"), "a"⟩], [], none, none⟩]
 
-theorem counterexample_anon_rel_props :
-    ¬ Agrees (Exec.run small { g := gOneRel } qAnonRelProps) (Spec.denote small { g := gOneRel } qAnonRelProps) := by
+example : Agrees (Exec.run small { g := gOneRel } qAnonRelProps) (Spec.denote small { g := gOneRel } qAnonRelProps) := by
   decide
 
 /-- a bound variable in the middle of a pattern whose end nodes are free: `MATCH (a) MATCH (b)-->(a)-->(c)` -/
